@@ -61,6 +61,26 @@ type verifC15Exec struct {
 	killMode string // "n" never succeeds, "a" always, "k" succeeds at the killAt-th attempt
 	killAt   int
 	kills    int
+	gated    bool                    // `crunch-run --detach` blocks until the case releases it (op o1)
+	arrived  map[int][]chan struct{} // uuid -> gates of the start commands that have arrived, oldest first
+}
+
+// gate of the oldest outstanding start command for uuid u, once it has arrived
+func (e *verifC15Exec) takeGate(u int) chan struct{} {
+	deadline := time.Now().Add(10 * time.Second)
+	for {
+		e.mtx.Lock()
+		if q := e.arrived[u]; len(q) > 0 {
+			e.arrived[u] = q[1:]
+			e.mtx.Unlock()
+			return q[0]
+		}
+		e.mtx.Unlock()
+		if time.Now().After(deadline) {
+			panic("driver: start command did not arrive")
+		}
+		time.Sleep(20 * time.Microsecond)
+	}
 }
 
 func (e *verifC15Exec) SetTarget(cloud.ExecutorTarget) {}
@@ -70,6 +90,15 @@ func (e *verifC15Exec) Execute(env map[string]string, cmd string, stdin io.Reade
 		io.Copy(ioutil.Discard, stdin)
 	}
 	e.mtx.Lock()
+	if e.gated && strings.HasPrefix(cmd, "crunch-run --detach") {
+		gate := make(chan struct{})
+		i := strings.LastIndex(cmd, "zzzzz-dz642-")
+		u := verifC15UUIDNum(cmd[i : i+27])
+		e.arrived[u] = append(e.arrived[u], gate)
+		e.mtx.Unlock()
+		<-gate
+		return nil, nil, nil
+	}
 	defer e.mtx.Unlock()
 	switch {
 	case cmd == "bootprobe":
@@ -577,6 +606,90 @@ func verifC15Case(line string) (out string) {
 		res := verifC15WSr[w.wkr.state] + verifC15IBr[w.wkr.idleBehavior]
 		wp.mtx.Unlock()
 		return fmt.Sprintf("%s d=%d", res, w.destroyCount(want))
+	case f[0] == "o1" && len(f) == 2:
+		ex.gated, ex.arrived = true, map[int][]chan struct{}{}
+		ex.bootOk, ex.listOk = true, true
+		wp := verifC15NewPool(ex)
+		w := verifC15AddWorker(wp, 1, 1, StateIdle, IdleBehaviorRun, nil, nil, nil)
+		w.wkr.probed = time.Now()
+		pending := map[int]int{}
+		defer func() {
+			// let every outstanding start command return
+			ex.mtx.Lock()
+			for _, q := range ex.arrived {
+				for _, g := range q {
+					close(g)
+				}
+			}
+			ex.arrived = map[int][]chan struct{}{}
+			ex.gated = false
+			ex.mtx.Unlock()
+		}()
+		for _, op := range strings.Split(f[1], ",") {
+			if len(op) < 3 {
+				return "bad-op"
+			}
+			switch op[:2] {
+			case "st":
+				u, err := strconv.Atoi(op[2:])
+				if err != nil {
+					return "bad-op"
+				}
+				if wp.StartContainer(verifC15Type(1), arvados.Container{UUID: verifC15UUID(u), Priority: 1}) {
+					pending[u]++
+				}
+			case "sd":
+				u, err := strconv.Atoi(op[2:])
+				if err != nil {
+					return "bad-op"
+				}
+				if pending[u] == 0 {
+					continue
+				}
+				pending[u]--
+				gate := ex.takeGate(u)
+				wp.mtx.Lock()
+				upd := w.wkr.updated
+				wp.mtx.Unlock()
+				time.Sleep(time.Microsecond) // the closure's time stamp must differ from the previous one
+				close(gate)
+				// the completion closure stamps wkr.updated (a closure that finds nothing to do -- as
+				// it would with the fix proposed for F15a -- does not: then go on after two seconds)
+				deadline := time.Now().Add(2 * time.Second)
+				for time.Now().Before(deadline) {
+					wp.mtx.Lock()
+					done := w.wkr.updated != upd
+					wp.mtx.Unlock()
+					if done {
+						break
+					}
+					time.Sleep(20 * time.Microsecond)
+				}
+			case "pa":
+				us, err := verifC15Us(op[2:])
+				if err != nil {
+					return "bad-op"
+				}
+				var sb strings.Builder
+				for _, u := range us {
+					sb.WriteString(verifC15UUID(u) + "\n")
+				}
+				ex.mtx.Lock()
+				ex.listOut = sb.String()
+				ex.mtx.Unlock()
+				w.wkr.ProbeAndUpdate() // a double close panics here, in this goroutine
+			default:
+				return "bad-op"
+			}
+		}
+		wp.mtx.Lock()
+		defer wp.mtx.Unlock()
+		var exited []int
+		for k := range wp.exited {
+			exited = append(exited, verifC15UUIDNum(k))
+		}
+		return fmt.Sprintf("%s sg=%s rg=%s ex=%s", verifC15WSr[w.wkr.state],
+			verifC15ShowUs(verifC15Keys(w.wkr.starting)), verifC15ShowUs(verifC15Keys(w.wkr.running)), verifC15ShowUs(exited))
 	case f[0] == "sc" && len(f) == 3:
 		ty, err := strconv.Atoi(f[2])
 		if err != nil {
